@@ -122,8 +122,10 @@ int cmd_book_replay(const Args& a)
             for (int i = 0; i < nb; ++i) { std::string u; in >> u; best.insert(u); }
             int sum;
             in >> t2 >> sum;
-            std::vector<std::string> pick(sum);
-            for (auto& u : pick) in >> u;
+            std::vector<std::string> pick;
+            std::vector<long> cum;
+            if (t2 == "PICK") { pick.resize(sum); for (auto& u : pick) in >> u; }
+            else { cum.resize(sum); for (auto& c : cum) in >> c; sum = cum.empty() ? 0 : (int)cum.back(); }   // CUM: cumulative weights
             in >> t2;  // END
             Position p(fen);
             if (hex64(PolyglotBook::hash(p)) != keyhex) report("key_of_position", "{\"fen\":" + jstr(fen) + "}");
@@ -145,9 +147,10 @@ int cmd_book_replay(const Args& a)
             lookups++;
             if (!best.count(b)) report("best_policy", "{\"fen\":" + jstr(fen) + ",\"returned\":" + jstr(b) + "}");
             // random policy: the decision function for every sample residue
-            std::vector<bool> seen(sum, false);
-            int left = sum;
-            for (int it = 0; it < 400 * sum && left > 0; ++it)
+            std::vector<bool> seen(pick.empty() ? 0 : sum, false);
+            int left = pick.empty() ? 1 : sum;
+            const long max_calls = pick.empty() ? 3000 : 400L * sum;
+            for (long it = 0; it < max_calls && left > 0; ++it)
             {
                 auto g = book->_gen;
                 auto d = book->_dist;
@@ -160,10 +163,22 @@ int cmd_book_replay(const Args& a)
                 std::string u = p.uci(book->get_random_move(key, p));
                 lookups++;
                 if (esum != sum) continue;   // loaded list differs: already reported
-                if (!seen[sample]) { seen[sample] = true; left--; residues++; }
-                if (u != pick[sample])
+                std::string expect;
+                if (!pick.empty())
+                {
+                    if (!seen[sample]) { seen[sample] = true; left--; residues++; }
+                    expect = pick[sample];
+                }
+                else
+                {
+                    size_t k = 0;
+                    while (k < cum.size() && !(sample < cum[k])) ++k;    // interval semantics on the spec's cumulative weights
+                    expect = k < recs.size() ? recs[k].dec : "?";
+                    residues++;
+                }
+                if (u != expect)
                     report("random_policy", "{\"fen\":" + jstr(fen) + ",\"sample\":" + std::to_string(sample) + ",\"sum\":" + std::to_string(sum) + ",\"returned\":" + jstr(u) +
-                                                ",\"expected\":" + jstr(pick[sample]) + "}");
+                                                ",\"expected\":" + jstr(expect) + "}");
             }
             // through the UCI front end: setoption + position + go
             if (via_uci)
